@@ -1,5 +1,5 @@
 import ast
-from copy import deepcopy
+from copy import copy, deepcopy
 from typing import Any, Dict, List, Optional, Set, Tuple, Union, cast
 
 from graphql import (
@@ -55,6 +55,7 @@ from .constants import (
     DEFAULT_KEYWORD,
     DISCRIMINATOR_KEYWORD,
     FIELD_CLASS,
+    INCLUDE_DIRECTIVE_NAME,
     LIST,
     LITERAL,
     MIXIN_FROM_NAME,
@@ -63,6 +64,7 @@ from .constants import (
     MODEL_REBUILD_METHOD,
     OPTIONAL,
     PYDANTIC_MODULE,
+    SKIP_DIRECTIVE_NAME,
     TYPENAME_ALIAS,
     TYPENAME_FIELD_NAME,
     TYPING_MODULE,
@@ -301,20 +303,39 @@ class ResultTypesGenerator:
         return [class_def] + extra_classes
 
     def _resolve_selection_set(
-        self, selection_set: SelectionSetNode, root_type: str = ""
+        self,
+        selection_set: SelectionSetNode,
+        root_type: str = "",
+        conditions: Tuple[DirectiveNode, ...] = (),
     ) -> Tuple[List[FieldNode], Set[str]]:
+        # conditions: @skip/@include directives of the enclosing fragments;
+        # fields collected under them may be absent from the response, so they
+        # get these directives too (on a copy: the operation's nodes are shared)
         fields = []
         fragments = set()
         for selection in selection_set.selections:
             if isinstance(selection, FieldNode):
+                if conditions:
+                    selection = copy(selection)
+                    selection.directives = (*selection.directives, *conditions)
                 fields.append(selection)
-            elif isinstance(selection, FragmentSpreadNode):
+                continue
+            sub_conditions = conditions + tuple(
+                d
+                for d in selection.directives
+                if d.name.value in (INCLUDE_DIRECTIVE_NAME, SKIP_DIRECTIVE_NAME)
+            )
+            if isinstance(selection, FragmentSpreadNode):
                 fragment_def = self.fragments_definitions[selection.name.value]
                 root_type_def = self.schema.type_map[root_type]
                 fragment_root_type_def = self.schema.type_map[
                     fragment_def.type_condition.name.value
                 ]
-                if not self._unpack_fragment(fragment_def, root_type_def):
+                # fields of a base class would stay required: a fragment spread
+                # under a condition is never used as a mixin
+                if not sub_conditions and not self._unpack_fragment(
+                    fragment_def, root_type_def
+                ):
                     fragments.add(selection.name.value)
                 elif fragment_def.type_condition.name.value == root_type or (
                     is_abstract_type(fragment_root_type_def)
@@ -325,7 +346,7 @@ class ResultTypesGenerator:
                 ):
                     self._unpacked_fragments.add(selection.name.value)
                     sub_fields, sub_fragments = self._resolve_selection_set(
-                        fragment_def.selection_set, root_type
+                        fragment_def.selection_set, root_type, sub_conditions
                     )
                     fields.extend(sub_fields)
                     fragments = fragments.union(sub_fragments)
@@ -340,7 +361,7 @@ class ResultTypesGenerator:
                 )
                 if root_type_value:
                     sub_fields, sub_fragments = self._resolve_selection_set(
-                        selection.selection_set, root_type_value
+                        selection.selection_set, root_type_value, sub_conditions
                     )
                     fields.extend(sub_fields)
                     fragments = fragments.union(sub_fragments)
